@@ -285,3 +285,45 @@ pub fn set_obs<S: Src, const N: usize>(s: &mut S) {
     cover!(s, covering_count(&nodes, &r, &q) >= 2, "two covering entries");
     std::mem::forget(set);
 }
+
+/// C09: cover(q) on the 4-slot chain root -> 1 -> 2 -> 3 (concrete child indices, symbolic sides,
+/// prefixes and values): the smallest shape with two consecutive value-less non-root nodes on the
+/// path to the query.
+pub fn cover_chain<S: Src>(s: &mut S) {
+    const N: usize = 4;
+    let mut nodes = any_nodes::<S, N>(s);
+    let mut i = 0;
+    while i < N {
+        let right = s.bool();
+        let c = if i + 1 < N { Some(i + 1) } else { None };
+        nodes[i].2 = if right { None } else { c };
+        nodes[i].3 = if right { c } else { None };
+        i += 1;
+    }
+    let r = [true; N];
+    s.assume(wf(&nodes, &r));
+    let map = mk_map_simple(&nodes, &r);
+    let q = any_p(s);
+    let total = covering_count(&nodes, &r, &q);
+    let mut it = map.cover(&q);
+    let mut steps = 0usize;
+    let mut last: Option<P> = None;
+    let mut k = 0;
+    while k < N {
+        if let Some((p, _)) = it.next() {
+            steps += 1;
+            check!(s, covers(p, &q) && lookup(&nodes, &r, p).is_some(), "C09:cover item is a stored entry covering the query");
+            if let Some(lp) = last {
+                check!(s, lp.1 < p.1, "C09:cover yields strictly increasing lengths");
+            }
+            last = Some(*p);
+        }
+        k += 1;
+    }
+    check!(s, it.next().is_none(), "C09:cover is exhausted after at most N items and stays exhausted");
+    check!(s, steps == total, "C09:cover yields every covering entry");
+    check!(s, last == crate::oracle::lpm(&nodes, &r, &q).map(|i| nodes[i].0), "C09,C02:last cover item is the longest match");
+    cover!(s, total >= 1 && nodes[1].1.is_none() && nodes[2].1.is_none() && nodes[3].1.is_some() && covers(&nodes[3].0, &q), "two consecutive value-less nodes above a covering entry");
+    cover!(s, total >= 2, "two or more covering entries");
+    std::mem::forget(map);
+}
